@@ -252,11 +252,77 @@ def strategy(tier):
     return build()
 
 
+# ------------------------------------------------------------------ expressions without any package ("zero times")
+
+
+def check_no_packages(case):
+    """
+    "However often an abbreviation occurs" includes not at all: an expression without packages, resolved with
+    resolve_packages=True (validation always does so) or handed to expand_packages, must come back as its plain parse
+    (time conditions replaced) - also where no package resolver applies to the evaluatable data.
+    """
+    from ahbicht.expressions.expression_resolver import expand_packages
+    from ahbicht.expressions.hints_provider import DictBasedHintsProvider
+    from ahbicht.expressions.package_expansion import DictBasedPackageResolver
+    from efoli import EdifactFormatVersion
+
+    api = evalhelp.api()
+    text, providers = case["s"], case["providers"]
+    sut.configure(_providers({}))
+    wanted = sut.call(api.resolve, text, False, True)
+    if not wanted.ok:
+        fail("resolve-raises", f"resolving {text!r} without package resolution raised {wanted!r}")
+    if providers == "hints-only":
+        only = DictBasedHintsProvider({})
+        only.edifact_format, only.edifact_format_version = sut.FMT, sut.VER
+        sut.configure([only])
+    elif providers == "other-version":
+        resolvers = []
+        for version in (EdifactFormatVersion.FV2304, EdifactFormatVersion.FV2404):
+            resolver = DictBasedPackageResolver({"1P": "[1]"})
+            resolver.edifact_format, resolver.edifact_format_version = sut.FMT, version
+            resolvers.append(resolver)
+        sut.configure(resolvers)
+    else:
+        sut.configure(_providers({"1P": "[1]"}))
+    what = f"{text!r} (no package in it; registered: {providers})"
+    res = sut.call(api.resolve, text, True, True)
+    if not res.ok:
+        fail("no-package-raises", f"resolving {what} with resolve_packages=True raised {res!r}")
+    if ref.dump_tree(res.value) != ref.dump_tree(wanted.value):
+        fail("no-package-differs", f"resolving {what} with resolve_packages=True gives another tree than without")
+    plain = sut.call(api.resolve, text, False, False)
+    expanded = sut.call(expand_packages, plain.value) if plain.ok else plain
+    if not expanded.ok:
+        fail("no-package-raises", f"expand_packages of the tree of {what} raised {expanded!r}")
+    if ref.dump_tree(expanded.value) != ref.dump_tree(sut.call(api.resolve, text, False, False).value):
+        fail("no-package-differs", f"expand_packages changed the tree of {what}")
+    return {}
+
+
+def strategy_no_packages(tier):
+    size = BOUNDS[tier]["max_atoms"]
+
+    @st.composite
+    def build(draw):
+        atom = gen.any_atom(kinds=("rc", "hint", "fc", "time", "time"))
+        ast = draw(gen.g_expr(max_atoms=size, atom=atom))
+        text = gen.render(draw, ast, redundant=draw(st.booleans()))
+        if draw(st.booleans()):
+            text = f"{draw(gen.indicator_text(gen.MODAL_WORDS + ['X', 'O', 'U']))} {text} "
+        return {"s": text, "providers": draw(st.sampled_from(["hints-only", "other-version", "matching"]))}
+
+    return build()
+
+
 STAGES = [
     Stage(name="substitution", kind="hyp", check=check, classify=classify, strategy=strategy,
           budget={"quick": 350, "thorough": 3000}, key=lambda c: [c["s"], c["table"]],
           floors={"same-package-twice": 0.1, "adjacent": 0.1, "time-in-package": 0.1, "later-part": 0.03,
                   "unknown-package": 0.05, "ahb": 0.2},
           sample=lambda c: {"s": c["s"], "table": c["table"]}),
+    Stage(name="no-packages", kind="hyp", check=check_no_packages, strategy=strategy_no_packages,
+          classify=lambda c, i: (["registered=" + c["providers"]] + (["with-time-condition"] if "UB" in c["s"] else []), "UB" in c["s"]),
+          budget={"quick": 60, "thorough": 600}, key=lambda c: [c["s"], c["providers"]]),
     large.stage("many-packages", large.c10_check, large.c10_cases),
 ]  # fmt: skip
